@@ -7,7 +7,7 @@ shape as the engine's input, so that the result can be compared with the target 
 run.  A change a device would refuse yields `none`: a referenced transform-set that does not exist,
 `no` for a line that is not there, defining a transform-set twice, deleting a transform-set that is
 still referenced, binding a crypto map that does not exist, removing the last line of a bound map.
-One value per attribute (`key`) of an entry: a second `crypto map M N <key> …` replaces the first.
+One value per attribute (`attr`) of an entry: a second `crypto map M N <attr> …` replaces the first; peers accumulate.
 -/
 namespace NA.Vpn
 
@@ -20,10 +20,17 @@ def insertAfterSeq (c : Cmd) (text : String) (l : List (Cmd × String)) : List (
   | [] => l ++ [(c, text)]
   | keep => keep.reverse ++ [(c, text)] ++ l.drop keep.length
 
-/-- replace the line with the same sequence number and key, or put a new line behind the entry's last line -/
+/-- One value per attribute and entry: a line for an attribute the entry already has replaces that line
+(a further `set peer` is appended to the peer list instead); otherwise the new line goes behind the entry's last line. -/
 def upsert (c : Cmd) (text : String) (l : List (Cmd × String)) : List (Cmd × String) :=
-  if l.any (fun x => x.1.seq == c.seq && x.1.key == c.key) then
-    l.map fun x => if x.1.seq == c.seq && x.1.key == c.key then (c, text) else x
+  if l.any (fun x => x.1.seq == c.seq && x.1.attr == c.attr) then
+    l.map fun x =>
+      if x.1.seq == c.seq && x.1.attr == c.attr then
+        if c.attr == "set peer" && x.1.key != c.key then
+          let k := x.2 ++ " " ++ (c.key.drop 9).toString
+          ({ x.1 with key := k, body := [k] }, k)
+        else (c, text)
+      else x
   else insertAfterSeq c text l
 
 def tsReferenced (cf : Config) (n : String) : Bool :=
